@@ -223,6 +223,19 @@ static FileSpec make_spec(const FamEntry &fe, const std::vector<std::vector<DK>>
         m.feats.push_back({fd, LinkType::Indexed});
         s.tags.push_back(m);
     }
+    // ---- a "lean" block (enumerated with the second generation): ONE array that is the positions of a multi-tag and the
+    //      feature data of a tag and nothing else; deleting it (the only way to a multi-tag without positions / a feature
+    //      without data through the public API) leaves a block without any data array
+    {
+        int b = s.nblocks++;
+        int only = (int)s.arrays.size(); s.arrays.push_back(small_set_array("only", b, 'p', {3}));
+        s.arrays[only].gen = 1;
+        TagSpec m; m.name = "mtlean"; m.block = b; m.multi = true; m.refs = {}; m.units = {}; m.pos = only; m.ext = -1; m.gen = 1;
+        s.tags.push_back(m);
+        TagSpec t; t.name = "tglean"; t.block = b; t.multi = false; t.refs = {}; t.units = {"ms"}; t.pos = t.ext = -1; t.gen = 1;
+        t.feats.push_back({only, LinkType::Untagged});
+        s.tags.push_back(t);
+    }
     s.props.push_back({{"meta"}, "p_gain"});
     s.props.push_back({{"meta"}, "p_times"});
     s.props.push_back({{"meta", "sub"}, "p_rate"});
@@ -353,7 +366,7 @@ static Built build_file(const FileSpec &s, const std::string &path) {
             B.tag.push_back(tg.id());
         } else {
             MultiTag mt = blk.createMultiTag(ts.name, "verif.mtag", blk.getDataArray(s.arrays[ts.pos].name));
-            mt.extents(blk.getDataArray(s.arrays[ts.ext].name));
+            if (ts.ext >= 0) mt.extents(blk.getDataArray(s.arrays[ts.ext].name));
             mt.units(ts.units);
             for (int r : ts.refs) mt.addReference(blk.getDataArray(s.arrays[r].name));
             for (auto &fs : ts.feats) fids.push_back(mt.createFeature(blk.getDataArray(s.arrays[fs.arr].name), fs.lt).id());
@@ -440,10 +453,11 @@ static std::vector<Site> make_sites(const FileSpec &s, int *n_first = nullptr) {
             if (k == RANGE || k == SET || k == DFRAME) {
                 BK bk = k == RANGE ? B_TICKS : k == SET ? B_LABELS : B_ROWS;
                 const char *what = k == RANGE ? "tick" : k == SET ? "label" : "data-frame row";
-                for (int v = 0; v < 3; v++) {
+                for (int v = 0; v < 4; v++) {
+                    if (v == 3 && k != DFRAME) continue;   // "none at all": a frame without rows (empty ticks cannot be set, no labels is conforming)
                     if (v == 2 && !main) continue;   // the data-side variant only on primary arrays
                     if (v == 0 && k == SET && (A.dims[p].len < 2 || !A.dims[p].labeled)) continue;   // no labels at all is conforming ("labels may be empty")
-                    std::string nm = std::string(what) + " count != data length (" + (v == 0 ? "one fewer" : v == 1 ? "one more" : "data extent grown by one") + ")";
+                    std::string nm = std::string(what) + " count != data length (" + (v == 0 ? "one fewer" : v == 1 ? "one more" : v == 2 ? "data extent grown by one" : "none at all") + ")";
                     add(bk, 0, false, a, p, -1, v, nm, nm + " at " + dim_ctx(s, a, p), {{'A', a, 0}}, {dkey(a, p) + "count"}, {}, 1);
                 }
             }
@@ -602,7 +616,7 @@ static void apply_api(File &f, const FileSpec &s, const Site &x) {
             sd.labels(l);
         } else {
             DataFrame df = blk.getDataFrame(dfname(s.arrays[x.a], x.p));
-            df.rows(x.v == 0 ? df.rows() - 1 : df.rows() + 1);
+            df.rows(x.v == 0 ? df.rows() - 1 : x.v == 3 ? 0 : df.rows() + 1);
         }
         break;
     case B_ALIAS_UNSORTED: {
